@@ -148,13 +148,18 @@ def build_unit(unit, bdir, mutate=False):
     with open(cfile, "w") as f:
         f.write(src)
     gb0, gb1 = os.path.join(bdir, "a.gb"), os.path.join(bdir, "b.gb")
-    cmd = ["goto-cc", "-I", os.path.join(VERIF, "vp"), "-DVP_CBMC"] + [f"-D{d}" for d in unit.defines] + [cfile, "-o", gb0]
+    cmd = ["goto-cc", "-I", os.path.join(VERIF, "vp"), "-I", os.path.join(VERIF, "contracts"), "-DVP_CBMC"] + [f"-D{d}" for d in unit.defines] + [cfile, "-o", gb0]
     rc, o, e, s = sh(cmd, 120)
     if rc != 0:
         raise X.ExtractionError(f"{unit.uid}: goto-cc failed (rc={rc}):\n{(o + e)[-2000:]}")
     if unit.no_enforce:
-        if unit.loop_contracts:
-            rc, o, e, s = sh(["goto-instrument", "--dfcc", "main", "--apply-loop-contracts", gb0, gb1], 300)
+        if unit.loop_contracts or unit.replace:
+            cmd = ["goto-instrument", "--dfcc", "main"]
+            for r in unit.replace:
+                cmd += ["--replace-call-with-contract", r]
+            if unit.loop_contracts:
+                cmd += ["--apply-loop-contracts"]
+            rc, o, e, s = sh(cmd + [gb0, gb1], 300)
             if rc != 0:
                 raise X.ExtractionError(f"{unit.uid}: goto-instrument failed (rc={rc}):\n{(o + e)[-2000:]}")
         else:
@@ -189,7 +194,16 @@ def list_properties(gb, unit):
     return props
 
 
+import threading
+SOLVER_SLOTS = threading.Semaphore(JOBS)      # at most JOBS solver processes at any time (memory)
+
+
 def run_cbmc(gb, unit, run, names):
+    with SOLVER_SLOTS:
+        return _run_cbmc(gb, unit, run, names)
+
+
+def _run_cbmc(gb, unit, run, names):
     cmd = ["cbmc", gb, "--json-ui", "--trace"] + CBMC_CHECKS + BACKENDS[run.backend] + unit.extra_cbmc
     if unit.unwind:
         cmd += ["--unwind", str(unit.unwind), "--unwinding-assertions"]
@@ -286,6 +300,7 @@ def process_unit(unit, tier_dir, mutate=False):
         rec["notes"].append("loop contract silently dropped (no loop_invariant_step obligation)")
         return rec
     covered = set()
+    plans = []
     for run in unit.runs:
         names = allnames
         if run.only is not None:
@@ -299,7 +314,12 @@ def process_unit(unit, tier_dir, mutate=False):
         if run.exclude:
             names = [n for n in names if not any(fnmatch.fnmatch(n, p) or p in descs[n] for p in run.exclude)]
         explicit = names if (run.only is not None or run.exclude) else []
-        r = run_cbmc(gb, unit, run, explicit)
+        plans.append((run, names, explicit))
+    # the runs of one unit are independent solver calls: execute them concurrently
+    with cf.ThreadPoolExecutor(max_workers=max(1, len(plans))) as rex:
+        futs = [rex.submit(run_cbmc, gb, unit, run, explicit) for run, names, explicit in plans]
+        results = [f.result() for f in futs]
+    for (run, names, explicit), r in zip(plans, results):
         route = run.route or unit.route
         if r["status"] == "timeout":
             if route == "R" or mutate:
